@@ -253,6 +253,75 @@ Definition step1 (s : state) (e : event) : state :=
 (* what parsec_compose builds from n >= 1 taskpools *)
 Definition compose_step (n : nat) : state -> event -> state := if Nat.leb n 1 then step1 else step.
 
+(* ---- members with no local work at all ("bare": PARSEC_OBJ_NEW(parsec_taskpool_t)) --------
+   Such a member has no detector of its own, no startup hook and no pending action:
+   parsec_context_add_taskpool installs the local detector on it and declares it ready, and
+   the detector reports the termination RIGHT THERE, before active_taskpools++ and before
+   on_enqueue: parsec_taskpool_termination_detected runs the member's on_complete =
+   parsec_composed_taskpool_cb re-entrantly, i.e. from inside the parsec_context_add_taskpool
+   call of the previous member's callback (or of the startup hook), and that callback hands the
+   NEXT member to the runtime, possibly a bare one again.  The recursion is structural on
+   [fuel] (the number of members is enough).  [bare] says which members are bare; their pool
+   record is [new_bare]. *)
+Definition is_bare (bare : list bool) (k : nat) : bool := nth k bare false.
+
+(* parsec_composed_taskpool_cb with the function that adds a member as a parameter *)
+Definition pool_cb_with (add : nat -> state -> state) (k : nat) (s : state) : state :=
+  let d := c_done s in
+  let s1 := emit (on_pool k (fun p => pset_cb p (S (p_cb p))) (set_cdone s (S d))) (LPoolCb k) in
+  let s2 := compound_dec s1 in
+  if (0 <? c_pa s2)%Z then add (S d) s2 else s2.
+
+Fixpoint add_member (bare : list bool) (fuel : nat) (k : nat) (s : state) : state :=
+  match nth_error (pools s) k with
+  | None => s
+  | Some _ =>
+      if is_bare bare k then
+        match fuel with
+        | O => s
+        | S f =>
+            (* monitor, taskpool_ready, nb_pending_actions == 0: termination_detected:
+               on_complete (re-entrant), active_taskpools--, TERMINATED *)
+            let s1 := on_pool k (fun p => pset_st p MTerminated)
+                        (add_active (pool_cb_with (add_member bare f) k s) (-1)) in
+            (* then active_taskpools++, on_enqueue; there is no startup hook *)
+            on_pool k (fun p => pset_enq p (S (p_enq p))) (emit (add_active s1 1) (LEnq k))
+        end
+      else add_pool k s
+  end.
+
+Definition add_any (bare : list bool) (k : nat) (s : state) : state := add_member bare (length (pools s)) k s.
+
+Definition compound_add_with (add : nat -> state -> state) (s : state) : state :=
+  let s1 := compound_check (set_cst (set_added s) MBusy) in
+  let s2 := add_active s1 1 in
+  let s3 := compound_check (set_cpa s2 (Z.of_nat (length (pools s2)))) in
+  add 0%nat s3.
+
+Definition stepB (bare : list bool) (s : state) (e : event) : state :=
+  let cb := pool_cb_with (add_any bare) in
+  match e with
+  | EAdd => if c_added s then s else compound_add_with (add_any bare) s
+  | EStartup k => if Nat.eqb (su_of s k) 1 then pool_startup cb k s else s
+  | EStartupDone k =>
+      if Nat.eqb (su_of s k) 2 then pool_dec_pa cb k (on_pool k (fun p => pset_su p 3) s) else s
+  | EBegin k i => step s (EBegin k i)
+  | EEnd k i =>
+      match task_of s k i with
+      | Some TRun => pool_dec_nt cb k (emit (set_task k i TDone s) (LEnd k i))
+      | _ => s
+      end
+  end.
+
+(* a member: Some n = a PTG taskpool of n tasks, None = a bare taskpool *)
+Definition new_bare : pool := mkPool [] 0 0 MNotReady 0%nat 0%nat 0%nat.
+Definition new_member (m : option nat) : pool := match m with Some n => new_pool n | None => new_bare end.
+Definition bare_of (ms : list (option nat)) : list bool := map (fun m => match m with None => true | Some _ => false end) ms.
+Definition initB (pre : bool) (ms : list (option nat)) : state :=
+  mkState (map new_member ms) false (if pre then 1 else 0)%Z MNotReady 0%nat 0%nat 0%Z [].
+Definition runB (pre : bool) (ms : list (option nat)) (evs : list event) : state :=
+  fold_left (stepB (bare_of ms)) evs (initB pre ms).
+
 (* ---- observations (what the harness derives from its stamps) ------------------------ *)
 Local Open Scope nat_scope.
 
@@ -301,6 +370,37 @@ Definition compound_last (s : state) : bool := compound_last_from (rev (log s)).
 Definition ran (s : state) : list nat := map (fun p => length (filter is_done (p_tasks p))) (pools s).
 Definition begun (s : state) : list nat := map (fun p => length (filter (fun t => negb (is_idle t)) (p_tasks p))) (pools s).
 Definition enqs (s : state) : list nat := map p_enq (pools s).
+
+(* with bare members: their on_enqueue runs after their termination (and after whatever their
+   callback started), so it takes no part in the ordering *)
+Definition pool_ofB (bare : list bool) (e : lentry) : option nat :=
+  match e with
+  | LEnq k => if is_bare bare k then None else Some k
+  | LBegin k _ | LEnd k _ => Some k
+  | _ => None
+  end.
+Fixpoint seq_ok_fromB (bare : list bool) (maxk : nat) (chron : list lentry) : bool :=
+  match chron with
+  | [] => true
+  | e :: r =>
+      match pool_ofB bare e with
+      | Some k => Nat.leb maxk k && seq_ok_fromB bare (Nat.max maxk k) r
+      | None => seq_ok_fromB bare maxk r
+      end
+  end.
+Definition seq_okB (bare : list bool) (s : state) : bool := seq_ok_fromB bare 0 (rev (log s)).
+Fixpoint none_afterB (bare : list bool) (chron : list lentry) : bool :=
+  match chron with
+  | [] => true
+  | e :: r => match pool_ofB bare e with Some _ => false | None => none_afterB bare r end
+  end.
+Fixpoint compound_last_fromB (bare : list bool) (chron : list lentry) : bool :=
+  match chron with
+  | [] => false
+  | LCompound :: r => none_afterB bare r
+  | _ :: r => compound_last_fromB bare r
+  end.
+Definition compound_lastB (bare : list bool) (s : state) : bool := compound_last_fromB bare (rev (log s)).
 
 (* every event that could be effective in some state over these sizes *)
 Definition all_events (sizes : list nat) : list event :=
